@@ -156,6 +156,11 @@ def protocols():
                          "@next": fn0(If([Cmp(["<"], [Dot(Id("self"), "c"), Int(2)])],
                                          [Block([DOpAsg(Id("self"), "c", "+", Int(1))])], Block([Null()])))}, {"c": Int(0)})),
              Core("print", [MCall(Id("a"), "to_tuple", [])])],
+            # comparing an object with itself is still a comparison: @== runs and its result is used (also for the derived !=)
+            [Asg("a", O({"@==": fn1(say("eq", Bool(False)))})), Core("print", [Cmp(["=="], [Id("a"), Id("a")])]),
+             Core("print", [Cmp(["!="], [Id("a"), Id("a")])]), Asg("b", Id("a")), Core("print", [Cmp(["=="], [Id("a"), Id("b")])])],
+            [Asg("a", O({"@==": fn1(say("eq", Bool(True))), "@<": fn1(say("lt", Bool(True)))})), Core("print", [Cmp(["<"], [Id("a"), Id("a")])]),
+             Core("print", [Cmp(["<="], [Id("a"), Id("a")])]), Core("print", [Cmp([">"], [Id("a"), Id("a")])]), Core("print", [Cmp([">="], [Id("a"), Id("a")])])],
             # @iterator "should return an iterable value that will then be used for iterator operations": a list, a map, a range
             [Asg("a", O({"@iterator": fn0(say("iterator", List([Int(8), Int(9)])))})),
              For(["v"], Id("a"), Block([Core("print", [Id("v")])]))],
